@@ -200,6 +200,17 @@ let check_B line toks =
               let ss = List.map (fun (_, m) -> san_of b m) ms in
               if List.length (List.sort_uniq compare ss) <> List.length ss then report "B" id "san-unique" "distinct" "collision" line
             | None -> ());
+           (match get "sanill" with
+            | Some v when v <> "" ->
+              let probes = String.split_on_char ',' v in
+              let e = List.map (fun pr ->
+                  let mvt = match String.index_opt pr ':' with Some i -> String.sub pr 0 i | None -> pr in
+                  let r = match parse_bmove (bytes_of_string mvt) with
+                    | Ok mv -> (match move_props !keys mv b with Ok _ -> "OK" | Err _ -> "ERR" | Panic -> "PANIC")
+                    | _ -> "UNPARSED" in
+                  mvt ^ ":" ^ r) probes in
+              exp "sanill" (String.concat "," e)
+            | _ -> ());
            (* features *)
            if b.b_checks <> N0 || b.b_pinned <> N0 || b.b_ep <> None || b.b_term || b.b_wr <> Neither || b.b_br <> Neither
               || List.exists (fun (_, m) -> match m with MovePiece pm -> pm.pm_promo <> None | _ -> false) ms then nontrivial ("B" ^ d);
